@@ -49,6 +49,7 @@ type rWork struct {
 func (r *rWork) recycle() {
 	if (r.recyclec != nil) && (r.buffer != nil) {
 		r.recyclec <- r.buffer
+		verifHook("client.send.recyclec", r.recyclec, r.dRange[0], r.dRange[1])
 		r.recyclec = nil
 		r.buffer = nil
 		r.i = 0
@@ -217,6 +218,7 @@ func (c *concReader) Read(p []byte) (int, error) {
 		}
 		c.seenRead = true
 		c.roic <- Range{c.pos, c.posLimit}
+		verifHook("client.send.roic", nil, c.pos, c.posLimit)
 	}
 
 	for numRead := 0; ; {
@@ -251,6 +253,7 @@ func (c *concReader) nextWork() rWork {
 			return work
 		}
 		work := <-c.resc
+		verifHook("client.recv.resc", work.recyclec, work.dRange[0], work.dRange[1])
 		c.completedWorks[work.dRange[0]] = work
 	}
 }
@@ -262,6 +265,7 @@ func (c *concReader) stopAnyWorkInProgress(keepWorking bool) {
 	// Synchronize the Manager and Workers on stopc (an unbuffered channel).
 	for i, n := 0, 1+c.numWorkers; i < n; i++ {
 		c.stopc <- stopWork{c.ackc, keepWorking}
+		verifHook("client.send.stopc", nil, verifBool(keepWorking), 0)
 	}
 
 	if keepWorking {
@@ -271,6 +275,7 @@ func (c *concReader) stopAnyWorkInProgress(keepWorking bool) {
 	// Synchronize the Manager and Workers on ackc (an unbuffered channel).
 	for i, n := 0, 1+c.numWorkers; i < n; i++ {
 		c.ackc <- struct{}{}
+		verifHook("client.send.ackc", nil, 0, 0)
 	}
 }
 
@@ -291,6 +296,7 @@ func drainWorkChan(c chan rWork) {
 	for {
 		select {
 		case work := <-c:
+			verifHook("client.drain", work.recyclec, work.dRange[0], work.dRange[1])
 			work.recycle()
 		default:
 			return
@@ -316,8 +322,10 @@ loop:
 	for {
 		select {
 		case stop := <-stopc:
+			verifHook("worker.recv.stopc", recyclec, verifBool(stop.keepWorking), 0)
 			if stop.ackc != nil {
 				<-stop.ackc
+				verifHook("worker.recv.ackc", recyclec, 0, 0)
 			} else {
 				// No need to ack. This is CloseWithoutWaiting.
 			}
@@ -327,6 +335,7 @@ loop:
 			continue loop
 
 		case inWork := <-input:
+			verifHook("worker.recv.reqc", recyclec, inWork.dRange[0], inWork.dRange[1])
 			input = nil
 			if inWork.err == nil {
 				dRange = inWork.dRange
@@ -345,9 +354,11 @@ loop:
 			}
 
 		case output <- outWork:
+			verifHook("worker.send.resc", recyclec, outWork.dRange[0], outWork.dRange[1])
 			output, outWork = nil, rWork{}
 
 		case recycledBuffer := <-recyclec:
+			verifHook("worker.recv.recyclec", recyclec, 0, 0)
 			for i := range buffers {
 				if buffers[i] == nil {
 					buffers[i], recycledBuffer = recycledBuffer, nil
@@ -421,8 +432,10 @@ loop:
 	for {
 		select {
 		case stop := <-stopc:
+			verifHook("manager.recv.stopc", nil, verifBool(stop.keepWorking), 0)
 			if stop.ackc != nil {
 				<-stop.ackc
+				verifHook("manager.recv.ackc", nil, 0, 0)
 			} else {
 				// No need to ack. This is CloseWithoutWaiting.
 			}
@@ -432,6 +445,7 @@ loop:
 			continue loop
 
 		case roi = <-input:
+			verifHook("manager.recv.roic", nil, roi[0], roi[1])
 			input, output = nil, reqc
 			if err := chunkReader.SeekToChunkContaining(roi[0]); err != nil {
 				if err == io.EOF {
@@ -442,6 +456,7 @@ loop:
 			}
 
 		case output <- work:
+			verifHook("manager.send.reqc", nil, work.dRange[0], work.dRange[1])
 			err := work.err
 			work = rWork{}
 			if err != nil {
